@@ -83,6 +83,25 @@ Theorem C17_internal_error_unreachable : forall userfunc v path pk ki d tr,
 Proof. exact visit_code. Qed.
 Print Assumptions C17_internal_error_unreachable.
 
+(* Several traversals.  The visitor keeps no state between or outside its activations: in a
+   program of traversals — a callback starting another traversal (same or other tree, other
+   user function and argument) before it returns, nested to any depth, or traversals following
+   one another — every traversal is the reference traversal of its own tree with its own
+   callback, and a nested one takes place iff the call that starts it does. *)
+Theorem C17_traversals_independent : forall p, run_prog p = spec_prog p.
+Proof. exact run_prog_conforms. Qed.
+Print Assumptions C17_traversals_independent.
+
+Theorem C17_consecutive_traversals_independent : forall ps, run_progs ps = flat_map spec_prog ps.
+Proof. exact run_progs_conforms. Qed.
+Print Assumptions C17_consecutive_traversals_independent.
+
+(* the outer traversal is the traversal without the nested ones *)
+Theorem C17_outer_unaffected : forall v codes nested,
+  hd None (run_prog (Prog v codes nested)) = Some (json_c_visit (sched_fun codes) v).
+Proof. exact outer_unaffected. Qed.
+Print Assumptions C17_outer_unaffected.
+
 (* Non-vacuity.  {"a":[1,2,3],"b":{"c":null},"d":true} with the answers CONTINUE, CONTINUE,
    POP (on a[0]), CONTINUE (second call of a), SKIP (on b), STOP (on d): *)
 Theorem C17_nonvacuous :
@@ -115,3 +134,18 @@ Theorem C17_corollaries_nonvacuous :
     (exists before e after, json_c_visit f v = (before ++ e :: after, res) /\
         f (e :: rev before) = RET_STOP).
 Proof. exact corollaries_nonvacuous. Qed.
+
+(* the callback of the first example, traversing [null,true] (answers CONTINUE, ERROR) from
+   inside its third call; a traversal attached to a ninth call, which never happens *)
+Theorem C17_nonvacuous_nested :
+  run_prog (Prog demo_tree [0; 0; 767; 0; 7547; 7867]
+              [(3, Prog (JArr [JNull; JBool true]) [0; -1] []); (9, Prog JNull [] [])]) =
+  [ Some ([ mkev [] 0 PNone KNone 0;
+            mkev [0] 0 PObj (KKey [97]) 1;
+            mkev [0; 0] 0 PArr (KIdx 0) 2;
+            mkev [0] 2 PObj (KKey [97]) 1;
+            mkev [1] 0 PObj (KKey [98]) 1;
+            mkev [2] 0 PObj (KKey [100]) 1 ], 0);
+    Some ([ mkev [] 0 PNone KNone 0; mkev [0] 0 PArr (KIdx 0) 1 ], -1);
+    None ].
+Proof. exact prog_nontrivial. Qed.
